@@ -1,5 +1,5 @@
 From Coq Require Import Extraction ExtrOcamlBasic QArith.
-From BCT Require Import Model.Threshold.
+From BCT Require Import Model.Threshold Model.ThresholdStore.
 Extraction Language OCaml.
 (* coqc runs with cwd = /verif/coq *)
-Extraction "../ocaml/gen/c17_model.ml" run_ta run_tp run_wc run_round Qred Z.add.
+Extraction "../ocaml/gen/c17_model.ml" run_ta run_tp run_wc run_round run_st_ta run_st_tp run_st_wc run_wc_str Qred Z.add.
